@@ -796,6 +796,15 @@ class ScriptDirectory:
                     )
                 taken.add(label)
 
+        if os.path.exists(path):
+            # the file name is built from the identifier and the message
+            # slug (or whatever the file_template uses), so two different
+            # revisions can map to one name; writing would silently replace
+            # the earlier revision's file
+            raise util.CommandError(
+                "Revision file %s already exists" % path
+            )
+
         self._generate_template(
             os.path.join(self.dir, "script.py.mako"),
             path,
